@@ -67,6 +67,7 @@ def directed_cases(seed: int, tier: str) -> typing.List[dict]:
                 "abort-then-whole": [dict(base, abort_at=2), dict(base)],
                 "same-twice": [dict(base), dict(base), dict(base, entry="cli")],
                 "abort-mid-file-then-reuse": [dict(base, abort_at=5, abort_style="write"), dict(base, reuse=True), dict(base)],
+                "abort-on-empty-line-then-reuse": [dict(base, omit_ser=True, abort_at=1, abort_style="write", abort_file=0, abort_write=2), dict(base, omit_ser=True, reuse=True), dict(base, omit_ser=True, abort_at=1, abort_style="write", abort_file=1, abort_write=9), dict(base, omit_ser=True, reuse=True)],
                 "edited-inputs-first": [dict(base, variant=True), dict(base), dict(base, variant=True)],
                 "other-support-namespace-first": [dict(base), dict(base, support_ns="acme.support"), dict(base)],
                 "reuse": [dict(base), dict(base, reuse=True)],
@@ -175,7 +176,7 @@ def api_generate(cx: Ctx, op: dict, out_dir: str) -> typing.Dict[str, str]:
 
     root_dir = os.path.join(cx.world.in_dir, op["root"])
     lookups = [os.path.join(cx.world.in_dir, x) for x in op.get("lookups", [])]
-    gkey = repr(sorted((k, str(v)) for k, v in op.items() if k not in ("reuse", "abort_at", "abort_style", "order_seed", "omit_ser")))
+    gkey = repr(sorted((k, str(v)) for k, v in op.items() if k not in ("reuse", "abort_at", "abort_style", "abort_file", "abort_write", "order_seed", "omit_ser")))
     if op.get("reuse") and gkey in cx.generators:
         ns, gen, sgen = cx.generators[gkey]
     else:
@@ -374,7 +375,7 @@ def run_case(case: dict, ctx: dict) -> dict:
                     # generate_all() again on the generator object of the previous invocation, possibly with another
                     # omit_serialization_support argument (a per-call parameter of the same object)
                     prev_t = templates[-1]
-                    t = {k: v for k, v in prev_t.items() if k not in ("abort_at", "abort_style", "reuse", "variant")}
+                    t = {k: v for k, v in prev_t.items() if k not in ("abort_at", "abort_style", "abort_file", "abort_write", "reuse", "variant")}
                     t["reuse"] = True
                     t["entry"] = "api"
                     if ro.chance(1, 2):
@@ -383,6 +384,8 @@ def run_case(case: dict, ctx: dict) -> dict:
                     t["abort_at"] = ro.between(1, 12)
                     if ro.chance(1, 2):
                         t["abort_style"] = "write"
+                        t["abort_file"] = ro.below(3)
+                        t["abort_write"] = ro.weighted([(ro.below(12), 3), (ro.below(60), 1)])
                 if ro.chance(1, 8):
                     t["support_ns"] = ro.choice(["acme.support", "x"])
                     t["entry"] = "api"
@@ -506,8 +509,8 @@ def run_case(case: dict, ctx: dict) -> dict:
             continue
         out_dir = os.path.join(sandbox, "out", "%d" % i)
         if op.get("reuse"):
-            gkey = repr(sorted((k, str(v)) for k, v in op.items() if k not in ("reuse", "abort_at", "abort_style", "order_seed", "omit_ser")))
-            prev = [j for j in range(i) if repr(sorted((k, str(v)) for k, v in ops[j].items() if k not in ("reuse", "abort_at", "abort_style", "order_seed", "omit_ser"))) == gkey and ops[j].get("entry", "api") == "api"]
+            gkey = repr(sorted((k, str(v)) for k, v in op.items() if k not in ("reuse", "abort_at", "abort_style", "abort_file", "abort_write", "order_seed", "omit_ser")))
+            prev = [j for j in range(i) if repr(sorted((k, str(v)) for k, v in ops[j].items() if k not in ("reuse", "abort_at", "abort_style", "abort_file", "abort_write", "order_seed", "omit_ser"))) == gkey and ops[j].get("entry", "api") == "api"]
             if prev and op.get("entry", "api") == "api":
                 out_dir = os.path.join(sandbox, "out", "%d" % prev[-1])
                 bump("probes", "generator_object_reused")
@@ -518,7 +521,7 @@ def run_case(case: dict, ctx: dict) -> dict:
         if op.get("abort_at") is not None:
             if op.get("abort_style") == "write":
                 # the exception strikes in the middle of a file (after some lines went through the post-processors)
-                seams.fault = {"kind": "write_oserror", "errno": "EIO", "file": op["abort_at"] % 4, "write": (op["abort_at"] * 7) % 23, "partial": 50}
+                seams.fault = {"kind": "write_oserror", "errno": "EIO", "file": op.get("abort_file", op["abort_at"] % 4), "write": op.get("abort_write", (op["abort_at"] * 7) % 23), "partial": 50}
             else:
                 seams.fault = {"kind": "oserror", "errno": "EIO", "at": op["abort_at"] * 3}
         aborted = False
